@@ -262,7 +262,7 @@ def run_system(i):
             elif emu.accepted(r) or r.rc == 0:
                 out["viol"].append(("contradiction-accepted:" + kind, "emulator proceeded on contradictory metadata (%s)" % kind,
                                     {"system": i, "kind": kind, "emu": r.brief()}))
-            elif r.rc != 1 or "ERROR" not in r.err:
+            elif r.rc != 1 or not [l for l in r.err.split("\n") if l.strip() and "INFO" not in l]:
                 out["viol"].append(("contradiction-unclean:" + kind, "rc=%s without an error message" % r.rc,
                                     {"system": i, "kind": kind, "emu": r.brief()}))
         return out
